@@ -4,7 +4,10 @@ from lib.core import exc_name
 
 ID = "C05"
 AUDIT_IMPORTS = ["HypatiaProofs.Properties.C05"]
-THEOREMS = ["Hyp.Query." + t for t in ("c05_placeholder",)]
+THEOREMS = ["Hyp.Query." + t for t in (
+    "c05_budget_irrelevant", "c05_leaf_unchanged", "c05_not_step", "c05_not_step_sound", "c05_fold_recognises",
+    "c05_or_eq_any_step", "c05_and_eq_all_step_partial", "c05_and_pairing_step", "c05_or_pairing_step_partial",
+    "c05_d4_repaired", "c05_d3_witness", "c05_d5_witness", "c05_d2_witness")]
 CASES = {"quick": 2000, "thorough": 200000}
 BUDGET_S = {"quick": 40, "thorough": 700}
 RULE = ("catalogs of 1-4 real indexes with 0-25 documents, with and without no-value documents; trees biased to "
